@@ -34,7 +34,7 @@ def strip_comments(s):
 
 code = strip_comments(src)
 
-PRIMS = {"u8": ("LU", 1), "u16": ("LU", 2), "u32": ("LU", 4), "u64": ("LU", 8),
+PRIMS = {"u8": ("LU", 1), "u16": ("LU", 2), "u32": ("LU", 4), "u64": ("LU", 8), "u128": ("LU", 16),
          "i8": ("LI", 1), "i16": ("LI", 2), "i32": ("LI", 4), "i64": ("LI", 8)}
 
 aliases = {}
@@ -49,6 +49,7 @@ WANT = [
     "MINIDUMP_UNLOADED_MODULE", "GUID", "MINIDUMP_EXCEPTION", "MINIDUMP_EXCEPTION_STREAM", "CPU_INFORMATION",
     "X86CpuInfo", "ARMCpuInfo", "OtherCpuInfo", "MINIDUMP_SYSTEM_INFO", "MINIDUMP_MEMORY_INFO_LIST", "MINIDUMP_MEMORY_INFO",
     "SYSTEMTIME", "TIME_ZONE_INFORMATION", "XSTATE_FEATURE", "XSTATE_CONFIG_FEATURE_MSC_INFO",
+    "FLOATING_SAVE_AREA_X86", "CONTEXT_X86", "CONTEXT_AMD64", "FLOATING_SAVE_AREA_ARM", "CONTEXT_ARM", "CONTEXT_ARM64",
 ]
 CV = {"CV_INFO_PDB20": "pdb_file_name", "CV_INFO_PDB70": "pdb_file_name", "CV_INFO_ELF": "build_id"}
 MISC = ["MINIDUMP_MISC_INFO", "MINIDUMP_MISC_INFO_2", "MINIDUMP_MISC_INFO_3", "MINIDUMP_MISC_INFO_4", "MINIDUMP_MISC_INFO_5"]
@@ -67,10 +68,32 @@ def matching_brace(s, i):
     die("unbalanced braces")
 
 
+def strip_attrs(body, where):
+    out, i = [], 0
+    while i < len(body):
+        if body.startswith("#[", i):
+            depth, j = 0, i + 1
+            while j < len(body):
+                if body[j] == "[":
+                    depth += 1
+                elif body[j] == "]":
+                    depth -= 1
+                    if depth == 0:
+                        break
+                j += 1
+            else:
+                die("%s: unterminated attribute" % where)
+            i = j + 1
+        else:
+            out.append(body[i])
+            i += 1
+    return "".join(out)
+
+
 def parse_fields(body, where):
     """`pub a: T, pub b: [T; N],` -> [(name, typeexpr)]"""
     fields = []
-    body = re.sub(r"#\[[^\]]*\]", "", body)     # field attributes such as #[default(..)]
+    body = strip_attrs(body, where)             # field attributes such as #[default([0; 512])]
     parts = [p.strip() for p in body.split(",")]
     # re-join array types that contain no commas (they never do: `[T; N]`)
     for p in parts:
@@ -144,7 +167,7 @@ def ty_expr(t, where):
         t = aliases[t]
     if t in PRIMS:
         return "(%s %d)" % PRIMS[t]
-    m = re.fullmatch(r"\[\s*(.+?)\s*;\s*(\d+)\s*\]", t)
+    m = re.fullmatch(r"\[\s*(.+?)\s*;\s*(\d+)(?:usize)?\s*\]", t)
     if m:
         return "(LArr %d %s)" % (int(m.group(2)), ty_expr(m.group(1), where))
     if t in structs:
@@ -220,6 +243,31 @@ lines.append("Definition VS_FFI_STRUCVERSION : Z := %d." % const("VS_FFI_STRUCVE
 lines += enum("MINIDUMP_STREAM_TYPE", ["UnusedStream", "ThreadListStream", "ModuleListStream", "MemoryListStream", "ExceptionStream",
                                       "SystemInfoStream", "Memory64ListStream", "UnloadedModuleListStream", "MiscInfoStream",
                                       "MemoryInfoListStream", "ThreadNamesStream"], "ST_")
+m = re.search(r"pub struct ContextFlagsCpu: u32 \{(.*?)\n    \}", code, re.S)
+if not m:
+    die("ContextFlagsCpu")
+cpu_flags = {}
+for item in m.group(1).split(";"):
+    item = item.strip()
+    if not item:
+        continue
+    mm3 = re.fullmatch(r"const (\w+) = (0x[0-9a-fA-F]+)", item)
+    if not mm3:
+        die("ContextFlagsCpu item %r" % item)
+    cpu_flags[mm3.group(1)] = int(mm3.group(2), 16)
+allbits = 0
+for v in cpu_flags.values():
+    allbits |= v
+for need_flag in ("CONTEXT_X86", "CONTEXT_AMD64", "CONTEXT_ARM", "CONTEXT_ARM64"):
+    if need_flag not in cpu_flags:
+        die("ContextFlagsCpu::%s" % need_flag)
+    lines.append("Definition CF_%s : Z := %d." % (need_flag, cpu_flags[need_flag]))
+lines.append("Definition CF_ALL_BITS : Z := %d." % allbits)
+lines.append("Definition CONTEXT_CPU_MASK : Z := %d." % const("CONTEXT_CPU_MASK"))
+if not re.search(r"pub fn from_flags\(flags: u32\) -> ContextFlagsCpu \{\s*ContextFlagsCpu::from_bits_truncate\(flags & CONTEXT_CPU_MASK\)\s*\}", code):
+    die("ContextFlagsCpu::from_flags changed")
+lines += enum("ProcessorArchitecture", ["PROCESSOR_ARCHITECTURE_INTEL", "PROCESSOR_ARCHITECTURE_ARM", "PROCESSOR_ARCHITECTURE_AMD64",
+                                        "PROCESSOR_ARCHITECTURE_IA32_ON_WIN64", "PROCESSOR_ARCHITECTURE_ARM64"], "")
 lines += enum("CvSignature", ["Pdb20", "Pdb70", "Elf"], "CV_SIG_")
 lines += enum("PlatformId", ["VER_PLATFORM_WIN32_WINDOWS", "VER_PLATFORM_WIN32_NT", "MacOs", "Ios", "Linux", "Solaris", "Android", "Ps3", "NaCl"], "PLATFORM_")
 
